@@ -408,8 +408,9 @@ fn nested_module_probe(rep: &mut Report) {
 /// that carries another tool's attribute ending in `bridge` (`#[cxx::bridge]`, `#[uniffi::bridge(..)]`) exports
 /// nothing through Diplomat, and no backend may refer to symbols for its items.
 fn foreign_bridge_probe(rep: &mut Report) {
-    let src = "#[diplomat::bridge]\nmod ffi {\n    #[diplomat::opaque]\n    pub struct Real(u8);\n    impl Real {\n        pub fn get(&self) -> u8 { self.0 }\n    }\n}\n#[cxx::bridge]\nmod cxxside {\n    pub struct Stats { pub a: u8 }\n    pub enum StatMode { A, B }\n    impl Stats {\n        pub fn total(self) -> u8 { 0 }\n        pub fn zero() -> Stats { Stats { a: 0 } }\n    }\n}\n#[other::tool::bridge(option)]\nmod third {\n    #[diplomat::opaque]\n    pub struct Foreign(u8);\n    impl Foreign {\n        pub fn peek(&self) -> u8 { 0 }\n    }\n}\n";
-    let foreign = ["Stats_total", "Stats_zero", "Foreign_peek", "Foreign_destroy", "StatMode", "Stats", "Foreign"];
+    let src = "#[diplomat::bridge]\nmod ffi {\n    #[diplomat::opaque]\n    pub struct Real(u8);\n    impl Real {\n        pub fn get(&self) -> u8 { self.0 }\n    }\n}\n#[diplomat::bridge]\nmod outer {\n    #[diplomat::opaque]\n    pub struct Outer(u8);\n    impl Outer {\n        pub fn get(&self) -> u8 { self.0 }\n    }\n    mod inner {\n        pub struct Step { pub a: u8 }\n        pub enum StepKind { A, B }\n        impl Step {\n            pub fn unit() -> Step { Step { a: 1 } }\n            pub fn scaled(self, k: u8) -> u8 { self.a * k }\n        }\n    }\n}\n#[cxx::bridge]\nmod cxxside {\n    pub struct Stats { pub a: u8 }\n    pub enum StatMode { A, B }\n    impl Stats {\n        pub fn total(self) -> u8 { 0 }\n        pub fn zero() -> Stats { Stats { a: 0 } }\n    }\n}\n#[other::tool::bridge(option)]\nmod third {\n    #[diplomat::opaque]\n    pub struct Foreign(u8);\n    impl Foreign {\n        pub fn peek(&self) -> u8 { 0 }\n    }\n}\n";
+    // (`inner` is a plain module nested in a bridge module: the macro passes it through untouched)
+    let foreign = ["Stats_total", "Stats_zero", "Foreign_peek", "Foreign_destroy", "StatMode", "Stats", "Foreign", "Step_unit", "Step_scaled", "StepKind", "Step"];
     for t in tool::BACKENDS {
         let o = tool::run_backend(src, t);
         rep.oracle_runs += 1;
